@@ -122,6 +122,10 @@ func (ld *Loaded) verifyFunc(fn *ssa.Function) (res *FuncResult) {
 		env := &Env{ex: ex, fr: fr, st: final, old: ex.entry, vars: map[string]Val{}, results: results, resultNames: resultNames(fn), pkg: pkgOf(fn), paramsEntry: true}
 		ex.applyGhost(env, fc, final)
 		for _, e := range fc.Ensures {
+			if e.Assumed {
+				ex.trustedUsed["assumed postcondition (not proved of the body): "+fnKey(fn)+" "+e.Label] = true
+				continue
+			}
 			g := ex.evalBool(env, e.E)
 			ex.oblige(fr, final, "post", "post:"+e.Label, fn.Pos(), e.Src, g)
 			ex.obs[len(ex.obs)-1].results = results
@@ -158,8 +162,12 @@ func (ld *Loaded) verifyFunc(fn *ssa.Function) (res *FuncResult) {
 					t = Select(t, b)
 					cur = cur.B
 				}
-				if cur == IntS {
-					axioms = append(axioms, Forall(bs, IntLe(t, a0)))
+				if cur == IntS && bs[0].S == IntS {
+					if os.Getenv("GOVC_OLDAXIOM") != "" {
+						axioms = append(axioms, Forall(bs, IntLe(t, a0)))
+					} else {
+						axioms = append(axioms, Forall(bs, Implies(IntLe(bs[0], a0), IntLe(t, a0))))
+					}
 				}
 				continue
 			}
@@ -168,11 +176,20 @@ func (ld *Loaded) verifyFunc(fn *ssa.Function) (res *FuncResult) {
 			}
 			v := Var(k+"@0", srt)
 			r := BoundVar("wf", IntS)
-			if srt.B == IntS {
-				axioms = append(axioms, Forall([]*Term{r}, IntLe(Select(v, r), a0)))
+			// (only for objects that existed at entry: what the entry heap "holds" at an address allocated later
+			// is meaningless, and bounding it would contradict facts assumed about recycled pool objects)
+			if os.Getenv("GOVC_OLDAXIOM") != "" {
+				if srt.B == IntS {
+					axioms = append(axioms, Forall([]*Term{r}, IntLe(Select(v, r), a0)))
+				} else if srt.B.K == KArray && srt.B.B == IntS && srt.B.A == BVS(64) {
+					i := BoundVar("wfi", BVS(64))
+					axioms = append(axioms, Forall([]*Term{r, i}, IntLe(Select(Select(v, r), i), a0)))
+				}
+			} else if srt.B == IntS {
+				axioms = append(axioms, Forall([]*Term{r}, Implies(IntLe(r, a0), IntLe(Select(v, r), a0))))
 			} else if srt.B.K == KArray && srt.B.B == IntS && srt.B.A == BVS(64) {
 				i := BoundVar("wfi", BVS(64))
-				axioms = append(axioms, Forall([]*Term{r, i}, IntLe(Select(Select(v, r), i), a0)))
+				axioms = append(axioms, Forall([]*Term{r, i}, Implies(IntLe(r, a0), IntLe(Select(Select(v, r), i), a0))))
 			}
 		}
 		for _, o := range ex.obs {
